@@ -190,12 +190,12 @@ Denotes(dt, p, prev, v) ==
 VARIABLES shape,     \* constant after Init
           cache,     \* cache[m][a]: current value of every parameter
           last       \* outcome of the last request:
-                     \*   [req, reply, calls, hookarg, upd]
+                     \*   [req, reply, calls, hookarg, upd, snap]
 vars == <<shape, cache, last>>
 
 NoDt == [t |-> "none"]
 IsParam(m, a) == shape[m][a].kind = "param"
-Params(m) == {a \in DOMAIN shape[m] : IsParam(m, a) /\ shape[m][a].const = Null}
+Params(m) == {a \in DOMAIN shape[m] : IsParam(m, a)}       \* (the cache of a constant holds the constant)
 
 AccClass(act) == IF act = "do" THEN "NoSuchCommand" ELSE "NoSuchParameter"
 Wanted(act) == IF act = "do" THEN "cmd" ELSE "param"
@@ -235,8 +235,10 @@ Chain(hooks, i, v, lim) ==
 
 NoCalls == <<>>
 Call(op, fn, arg) == [op |-> op, fn |-> fn, arg |-> arg]     \* op: "write" | "cmd" | "read"
+\* upd: the update a change / read may announce (Null: none); snap: the SET of snapshot updates an activate
+\* delivers (Null for the other requests)
 Outcome(req, reply, calls, hookarg, upd) ==
-  [req |-> req, reply |-> reply, calls |-> calls, hookarg |-> hookarg, upd |-> upd]
+  [req |-> req, reply |-> reply, calls |-> calls, hookarg |-> hookarg, upd |-> upd, snap |-> Null]
 Refused(req, classes) == Outcome(req, Bad(classes), NoCalls, Null, Null)
 Res(out, c) == [out |-> out, cache |-> c]
 
@@ -293,19 +295,33 @@ ReadRes(c, req) ==
                         [c EXCEPT ![m][a] = acc.rret])
           ELSE Res(Outcome(req, Ok(c[m][a]), NoCalls, Null, Null), c)
 
+(* ---- activate ---- of a module (req.name = "") or of one parameter: the connection gets   *)
+(* a snapshot update for every exported parameter concerned, carrying the cached value - for  *)
+(* a constant that is the constant, whatever default, configured value or read function the   *)
+(* parameter may have.  (Subscribing a command is not in the alphabet.)                        *)
+ActivateRes(c, req) ==
+  IF req.mod \notin DOMAIN shape THEN Res(Refused(req, {"NoSuchModule"}), c)
+  ELSE LET accs == shape[req.mod]
+           exported == {a \in DOMAIN accs : accs[a].kind = "param" /\ accs[a].wire # ""}
+           sel == IF req.name = "" THEN exported ELSE {a \in exported : accs[a].wire = req.name}
+       IN IF sel = {} /\ req.name # "" THEN Res(Refused(req, {"NoSuchParameter"}), c)
+          ELSE Res([Outcome(req, Ok(Null), NoCalls, Null, Null)
+                    EXCEPT !.snap = {[mod |-> req.mod, name |-> accs[a].wire, v |-> c[req.mod][a]] : a \in sel}], c)
+
 Result(c, req) ==
   CASE req.act = "change" -> ChangeRes(c, req)
     [] req.act = "do"     -> DoRes(c, req)
     [] req.act = "read"   -> ReadRes(c, req)
+    [] req.act = "activate" -> ActivateRes(c, req)
 
 Step(req) ==
   /\ UNCHANGED shape
   /\ last' = Result(cache, req).out
   /\ cache' = Result(cache, req).cache
 
-\* constants have no cached value worth speaking of
-InitCache(sh) == [m \in DOMAIN sh |-> [a \in {x \in DOMAIN sh[m] : sh[m][x].kind = "param" /\ sh[m][x].const = Null}
-                                        |-> sh[m][a].init]]
+\* the cache of a constant holds the constant from the beginning (not its default, not an error)
+InitCache(sh) == [m \in DOMAIN sh |-> [a \in {x \in DOMAIN sh[m] : sh[m][x].kind = "param"}
+                                        |-> IF sh[m][a].const # Null THEN sh[m][a].const ELSE sh[m][a].init]]
 NoReq == [act |-> "none"]
 InitWith(sh) == /\ shape = sh
                 /\ cache = InitCache(sh)
@@ -384,6 +400,13 @@ ValidIsServed ==
 
 (* the cache always holds members of the described value sets; only the addressed parameter moves *)
 CacheInDatainfo == \A m \in DOMAIN shape : \A a \in Params(m) : InDatainfo(shape[m][a].dt, cache[m][a])
+(* a constant is never anything else: in the cache, in a read reply, in a snapshot update *)
+ConstantsHold ==
+  /\ \A m \in DOMAIN shape : \A a \in Params(m) : shape[m][a].const # Null => cache[m][a] = shape[m][a].const
+  /\ (last.req.act = "read" /\ last.reply.ok /\ AccOf(last.req).const # Null) => last.reply.v = AccOf(last.req).const
+  /\ last.snap # Null => \A u \in last.snap : \A a \in DOMAIN shape[u.mod] :
+        (shape[u.mod][a].wire = u.name /\ shape[u.mod][a].kind = "param" /\ shape[u.mod][a].const # Null)
+           => u.v = shape[u.mod][a].const
 Frame ==
   [][ \A m \in DOMAIN shape : \A a \in Params(m) :
         cache'[m][a] # cache[m][a] => /\ last'.req.act \in {"change", "read"} /\ last'.req.mod = m
@@ -545,6 +568,29 @@ ShapeE(n) ==
 (* K: a constant of a datatype whose transported form is not the internal one *)
 ShapeK(d) == [m |-> [pa |-> Par("_pa", DTi, FALSE, Null, NoLim, <<>>, "none"),
                      pk |-> Par("_pk", DTname[d], TRUE, OtherOf(DTname[d]), NoLim, <<>>, "none")]]
+(* Kf / Kt: where a constant comes from and what else the parameter has.  Falsy constants (0, 0.0, false, "", *)
+(* the empty array, the enum member with code 0 that is not the first member) and a truthy one:                 *)
+(*   pk: constant in the class, a DIFFERENT default, and a read function returning something else               *)
+(*   pq: constant pinned in the configuration (constvia "cfg") on a writable parameter with read + write function *)
+(*   pn: constant in the class, no default, nothing else      pv: constant in the class plus Parameter(value=..) *)
+(* Read, describe, the cache and the snapshot update of an activate must all show the constant.                  *)
+DTe0 == [t |-> "enum", mem |-> <<[name |-> "a", val |-> 1], [name |-> "z", val |-> 0]>>]
+ConstCase == [i0 |-> [dt |-> DTi, c |-> Num(0), o |-> Num(5)],
+              f0 |-> [dt |-> DTf, c |-> Num(0), o |-> Num(5)],
+              b0 |-> [dt |-> DTb, c |-> Bool(FALSE), o |-> Bool(TRUE)],
+              s0 |-> [dt |-> DTs, c |-> SB(0), o |-> SXyz],
+              a0 |-> [dt |-> DTa, c |-> List(<<>>), o |-> List(<<Num(2), Num(3)>>)],
+              e0 |-> [dt |-> DTe0, c |-> Num(0), o |-> Num(1)],
+              f5 |-> [dt |-> DTf, c |-> Num(5), o |-> Num(3)]]
+ConstPar(wire, k, initvia, constvia, rd, drv) ==
+  [Par(wire, k.dt, TRUE, k.c, NoLim, <<>>, drv) EXCEPT !.init = k.o, !.ret = k.o, !.rd = rd, !.rret = k.o]
+  @@ [initvia |-> initvia, constvia |-> constvia]
+ShapeKc(d) == LET k == ConstCase[d] IN
+  [m |-> [pa |-> Par("_pa", DTi, FALSE, Null, NoLim, <<>>, "none"),
+          pk |-> ConstPar("_pk", k, "default", "class", "fixed", "absent"),
+          pq |-> ConstPar("_pq", k, "default", "cfg", "fixed", "none") @@ [cls |-> [ro |-> FALSE]],
+          pn |-> ConstPar("_pn", k, "none", "class", "absent", "absent"),
+          pv |-> ConstPar("_pv", k, "value", "class", "absent", "none")]]
 (* D: a hook on a struct sees the merged value *)
 ShapeD == [m |-> [pa |-> Par("_pa", DTst, FALSE, Null, NoLim,
                              <<[at |-> "D", raise |-> <<St(Num(5), Num(2))>>, stop |-> <<>>]>>, "none")]]
@@ -555,7 +601,7 @@ IdsOf(fam) ==
     [] fam = "A1" -> {<<"A", d>> : d \in {"e", "s", "a"}}
     [] fam = "B" -> {<<"B", d, drv>> : d \in DOMAIN DTname, drv \in {"same", "fixed", "absent"}}
     [] fam = "E" -> {<<"E", n>> : n \in 1 .. 5}
-    [] fam = "K" -> {<<"K", "sc">>, <<"K", "bl">>}
+    [] fam = "K" -> {<<"K", "sc">>, <<"K", "bl">>} \cup {<<"Kc", d>> : d \in DOMAIN ConstCase}
     [] fam = "C1" -> {<<"C", "f", "minmax", "h0", "none", "X">>, <<"C", "f", "minmax", "h1", "none", "X">>,
                       <<"C", "f", "limits", "h2", "none", "X">>,
                       <<"C", "f", "minmax", "h2", "none", "M">>, <<"C", "f", "limits", "h1", "none", "M">>,
@@ -577,6 +623,7 @@ ShapeOf(id) ==
     [] id[1] = "D" -> ShapeD
     [] id[1] = "E" -> ShapeE(id[2])
     [] id[1] = "K" -> ShapeK(id[2])
+    [] id[1] = "Kc" -> ShapeKc(id[2])
 
 Req(act, mod, name, payload) == [act |-> act, mod |-> mod, name |-> name, payload |-> payload]
 (* requests: for every accessible every payload of its catalogue under its wire name (or  *)
@@ -589,7 +636,7 @@ AccReqs(sh, m, a) ==
      THEN {Req("change", m, nm, p) : p \in (IF acc.islimit /\ acc.dt.t # "limits" THEN LimCat
                                             ELSE IF acc.ro \/ acc.wire = "" THEN Short(acc.dt) ELSE Cat(acc.dt))}
           \cup {Req("do", m, nm, Null)}
-          \cup {Req("read", m, nm, Null)}
+          \cup {Req("read", m, nm, Null), Req("activate", m, nm, Null)}
           \cup (IF "cls" \in DOMAIN acc /\ "wire" \in DOMAIN acc.cls      \* the name the class gave, before the configuration
                 THEN {Req("change", m, acc.cls.wire, CHOOSE p \in Short(acc.dt) : TRUE), Req("read", m, acc.cls.wire, Null)} ELSE {})
           \cup (IF acc.wire # a /\ acc.wire # ""
@@ -600,11 +647,12 @@ AccReqs(sh, m, a) ==
 ReqsOf(sh) ==
   UNION {UNION {AccReqs(sh, m, a) : a \in DOMAIN sh[m]} : m \in DOMAIN sh}
   \cup {Req(act, mod, nm, IF act = "change" THEN Num(3) ELSE Null) :
-          act \in {"change", "read", "do"}, mod \in {"zz", "h"}, nm \in {"_pa", "target"}}
+          act \in {"change", "read", "do", "activate"}, mod \in {"zz", "h"}, nm \in {"_pa", "target"}}
+  \cup {Req("activate", mod, "", Null) : mod \in DOMAIN sh \cup {"zz", "h"}}
   \* unknown names; optional accessibles nobody implemented (popt, copt) and an accessible a subclass removed
   \* (prem = None): gamma puts them into every generated class
   \cup {Req(act, "m", nm, IF act = "change" THEN Num(3) ELSE Null) :
-          act \in {"change", "read", "do"}, nm \in {"nope", "_popt", "_copt", "_prem"}}
+          act \in {"change", "read", "do", "activate"}, nm \in {"nope", "_popt", "_copt", "_prem"}}
   \* the bare module specifier: target for change, value for read
   \cup {Req("change", m, "", p) : m \in DOMAIN sh, p \in {Num(3), Num(9), SAb}} \cup {Req("read", m, "", Null) : m \in DOMAIN sh}
 
